@@ -62,6 +62,8 @@ def evaluate(pid, want, data, well_posed=None):
     res["traces"] = stats["execs"]
     res["evals"] = stats["execs"]
     res["capped"] = stats["capped"]
+    if stats["capped"]:
+        res["capped_note"] = f"{stats['execs']} executions; every execution with <= {stats.get('completed_deviation_bound')} deviations from the default answers covered"
     res["nontrivial"] = (inst.name + ("|reused-object" if data.get("reuse") else "")) if stats["execs"] > 0 else None
     res["outcomes"] = [f"{inst.family}:{k[1]}" for k in dist]
     res["sample"] = {"instance": inst.text, "executions": stats["execs"], "choice_points": stats["points"], "distinct_outcomes": stats["outcomes"], "model_states": stats["model_states"]}
